@@ -180,8 +180,9 @@ fn dyn_case(run: usize, rng: &mut impl Rng) -> Value {
     };
     let mut routers: BTreeMap<u64, GossipRouter> = members.iter().map(|m| (*m, mk_router(*m, &members))).collect();
     let deltas: Vec<_> = ks.iter().enumerate().map(|(i, k)| mk_delta(&json!({"id": i, "k": k, "t": "set", "v": "v", "ts": 1, "r": 1}))).collect();
-    let mut snaps: Vec<(Value, Vec<u64>, HashRing, Vec<Value>, Vec<Value>)> = Vec::new();     // (op, members, ring, keys-without-pos, routes)
+    let mut snaps: Vec<(Value, Vec<u64>, HashRing, Vec<Value>, Vec<Value>, Vec<Value>)> = Vec::new();     // (op, members, ring, keys-without-pos, routes, routes while the peer tables lagged)
     let mut op = json!(["start", 0]);
+    let mut pre: Vec<Value> = Vec::new();
     for _ in 0..=rng.gen_range(2..=6usize) {
         let ring = shared.read().unwrap().clone();
         let kj: Vec<Value> = ks.iter().map(|k| {
@@ -189,12 +190,16 @@ fn dyn_case(run: usize, rng: &mut impl Rng) -> Value {
             json!({"k": k, "def": ids(&ring.get_replicas(k)), "resp": resp, "primary": ring.get_primary(k).map(|p| logical(p.0)).unwrap_or(0)})
         }).collect();
         let routes: Vec<Value> = routers.iter().map(|(s, r)| json!({"sender": s, "new": table_json(&r.route_deltas(deltas.clone()))})).collect();
-        snaps.push((op.clone(), members.clone(), ring, kj, routes));
+        snaps.push((op.clone(), members.clone(), ring, kj, routes, std::mem::take(&mut pre)));
         // next membership change
         let join = members.len() <= 1 || (members.len() < 7 && rng.gen_bool(0.5));
         if join {
             let x = *pool.iter().find(|x| !members.contains(x)).unwrap();
             shared.write().unwrap().add_node(ReplicaId::new(real(x)));
+            // the ring has changed, the peer tables have not yet: batches routed now may starve the newcomer, nobody else
+            if rng.gen_bool(0.7) {
+                pre = routers.iter().map(|(s, r)| json!({"sender": s, "new": table_json(&r.route_deltas(deltas.clone()))})).collect();
+            }
             for r in routers.values_mut() {
                 r.update_peer(ReplicaId::new(real(x)), addr(x));
             }
@@ -206,6 +211,9 @@ fn dyn_case(run: usize, rng: &mut impl Rng) -> Value {
             let x = members.remove(rng.gen_range(0..members.len()));
             shared.write().unwrap().remove_node(ReplicaId::new(real(x)));
             routers.remove(&x);
+            if rng.gen_bool(0.7) {
+                pre = routers.iter().map(|(s, r)| json!({"sender": s, "new": table_json(&r.route_deltas(deltas.clone()))})).collect();
+            }
             for r in routers.values_mut() {
                 r.remove_peer(ReplicaId::new(real(x)));
             }
@@ -216,9 +224,9 @@ fn dyn_case(run: usize, rng: &mut impl Rng) -> Value {
     }
     let rings: Vec<&HashRing> = snaps.iter().map(|s| &s.2).collect();
     let (rj, kr) = ranked(&rings, &ks);
-    let epochs: Vec<Value> = snaps.iter().enumerate().map(|(i, (op, m, _, kj, routes))| {
+    let epochs: Vec<Value> = snaps.iter().enumerate().map(|(i, (op, m, _, kj, routes, pre))| {
         let keys: Vec<Value> = kj.iter().zip(kr.iter()).map(|(k, pos)| { let mut k = k.clone(); k["pos"] = json!(pos); k }).collect();
-        json!({"op": op, "members": m, "ring_a": rj[i], "rf": rf, "keys": keys, "routes": routes})
+        json!({"op": op, "members": m, "ring_a": rj[i], "rf": rf, "keys": keys, "routes": routes, "pre": pre})
     }).collect();
     json!({"t": "dyn", "run": run, "vnodes": vn, "rf": rf, "idmap": IDK.with(|k| k.get()), "epochs": epochs})
 }
